@@ -363,8 +363,21 @@ func (p *Parser) Interactive(r io.Reader, fn func([]*Stmt) bool) error {
 // is not called again.
 func (p *Parser) InteractiveSeq(r io.Reader) iter.Seq2[[]*Stmt, error] {
 	return func(yield func([]*Stmt, error) bool) {
+		// The callback may also be reached via wrappedReader.Read;
+		// once it returns false, it must never be called again.
+		stopped := false
+		userYield := yield
+		yield = func(stmts []*Stmt, err error) bool {
+			if !stopped && !userYield(stmts, err) {
+				stopped = true
+			}
+			return !stopped
+		}
 		w := wrappedReader{p: p, rd: r, yield: yield}
 		for stmts, err := range p.StmtsSeq(&w) {
+			if stopped {
+				break
+			}
 			w.accumulated = append(w.accumulated, stmts)
 			if err != nil {
 				if !yield(w.accumulated, err) {
